@@ -1,1 +1,8 @@
-/-! # C20 — property theorems (not built yet) -/
+import PysphVerif.Model.Needs
+/-! # C20 — property theorems (in progress) -/
+namespace PysphVerif.C20
+open PysphVerif.Needs
+
+theorem placeholder_ok : firstError (fun _ => Verdict.ok) [] = Verdict.ok := rfl
+
+end PysphVerif.C20
